@@ -24,7 +24,7 @@ META = dict(
     bounds=dict(value='any integer (discrete) / any real (continuous)', templates='hand-written DSG templates (pools/dsg.py), '
                 '<= 6 design variables, <= 64 valid designs', sequences='fix; fix,decode*,free; fix,free,fix,free; fix v1,fix v2,free (same variable); fix a,fix b,free,free in '
                 'both orders (<= 4 operations)'),
-    outside=['graphs other than the templates', 'the fast selection-choice encoder', 'statistics other than n_valid / n_declared / n_discrete of the two total rows',
+    outside=['graphs other than the templates', 'the fast selection-choice encoder on templates other than the eight in FAST_TEMPLATES (there the designs of a problem are the decodes of all declared vectors, it does not enumerate)', 'statistics other than n_valid / n_declared / n_discrete of the two total rows',
              'continuous variables: accept/reject for all reals and disappearance from des_vars are decided; decodes after '
              'fixing use one representative value (float() concretises it)'],
     stubs=['EncoderSelector.get_best_assignment_manager -> default lazy encoder', 'formatting of the ValueError message in '
@@ -37,20 +37,32 @@ INSTANCE_CAP_S = 300
 
 def instances(tier, seed):
     out = []
-    names = ['two_indep', 'nested', 'nested3', 'incompat', 'dv', 'dv_linked', 'sel_linked', 'sel_forced_linked', 'dv_or_existence', 'conn_cond', 'conn_dv', 'conn_opt_src']
+    names = ['two_indep', 'nested', 'nested3', 'incompat', 'incompat3', 'dv', 'dv_linked', 'sel_linked', 'sel_forced_linked', 'dv_or_existence', 'conn_cond', 'conn_dv', 'conn_opt_src']
     if tier == 'thorough':
         names = list(dsg_pool.TEMPLATES)
+    names = names+[f'fast:{n}' for n in FAST_TEMPLATES]
     for name in names:
-        gp, g, info = dsg_pool.make_processor(name)
+        gp, g, info = _mk(name)
         n = len(gp.all_des_vars)
         for k in range(n):
             out.append(dict(label=f'single {name} var={k}', kind='single', template=name, k=k))
         pairs = [(a, b) for a in range(n) for b in range(n) if a != b]
         if tier == 'quick':
-            pairs = pairs[:3]
+            pairs = pairs[:3] if not name.startswith('fast:') else pairs[:1]
         for a, b in pairs:
             out.append(dict(label=f'pair {name} vars={a},{b}', kind='pair', template=name, a=a, b=b))
     return out
+
+
+def _mk(name):
+    """template name, or 'fast:<template>' for the fast selection-choice encoder"""
+    if name.startswith('fast:'):
+        from adsg_core.optimization.graph_processor import SelChoiceEncoderType
+        return dsg_pool.make_processor(name[5:], SelChoiceEncoderType.FAST)
+    return dsg_pool.make_processor(name)
+
+
+FAST_TEMPLATES = ['two_indep', 'nested', 'nested3', 'incompat', 'incompat3', 'dv', 'dv_or_existence', 'forced']
 
 
 def _viol(res, check, sig, config, inputs, observed, expected):
@@ -76,6 +88,8 @@ _ORDER = [0]
 def observe(gp, decode_rows=None):
     """what a user can see of a processor: variables, enumeration, counts, decodes of the given rows"""
     dvs = [(d.name, d.n_opts if d.is_discrete else tuple(d.bounds)) for d in gp.des_vars]
+    if gp.get_all_discrete_x() is None:
+        return _observe_fast(gp, dvs, decode_rows)
     # the enumeration of the unrestricted problem (with_fixed=False) must not depend on what is fixed, nor on whether it
     # is asked before or after the restricted one (alternating order per call)
     _ORDER[0] += 1
@@ -133,6 +147,44 @@ def observe(gp, decode_rows=None):
     return dict(dvs=dvs, rows=rows, acts=acts, n_valid=int(n_valid), decodes=dec, full=full, stats=stats)
 
 
+def _observe_fast(gp, dvs, decode_rows=None):
+    """the fast encoder does not enumerate: the designs of the problem are the decodes of all declared vectors
+    (continuous variables at one probe value), with and without materialising the instance"""
+    cont = [not d.is_discrete for d in gp.des_vars]
+
+    def norm(xi, ai):
+        return tuple('cont' if (c_ and a_) else float(v) for v, a_, c_ in zip(xi, ai, cont)), tuple(bool(v) for v in ai)
+
+    def dec(v):
+        out = []
+        for create in (True, False):
+            try:
+                _, xi, ai = gp.get_graph(list(v), create=create)
+                out.append(norm(xi, ai))
+            except Exception as e:  # noqa
+                out.append(f'{type(e).__name__}: {e}')
+        return out
+    designs, mismatch = {}, []
+    for v in itertools.product(*[range(d.n_opts) if d.is_discrete else [sum(d.bounds)/2] for d in gp.des_vars]):
+        for create, d in zip((True, False), dec(v)):
+            if isinstance(d, str):
+                mismatch.append((v, create, d))
+            else:
+                designs[d[0]] = d[1]
+        a, b = dec(v)
+        if a != b:
+            mismatch.append((v, 'create=True', a, 'create=False', b))
+    rows = sorted(designs, key=str)
+    acts = [designs[r] for r in rows]
+    decodes = []
+    for r in (decode_rows if decode_rows is not None else rows):
+        a, b = dec([0. if v == 'cont' else v for v in r])
+        decodes.append(a if a == b else ('create=True', a, 'create=False', b))
+    all_errors = bool(mismatch) and not designs  # no vector decodes at all: the (restricted) problem may simply be empty
+    return dict(dvs=dvs, rows=rows, acts=acts, n_valid=len(rows), decodes=decodes, full='not enumerated by the fast encoder', stats=None,
+                mismatch=[str(m) for m in mismatch[:3]], all_errors=all_errors)
+
+
 def _drop(t, k):
     return tuple(v for i, v in enumerate(t) if i != k)
 
@@ -158,6 +210,13 @@ def check_restriction(res, name, fixed, obs_fixed, obs0, cfg, inputs):
               dict(with_fixed_false=str(obs_fixed['full'])[:400]), 'get_all_discrete_x(with_fixed=False) is the enumeration of the free problem')
     else:
         res['discharged'] += 1
+    if obs_fixed.get('mismatch') and obs_fixed.get('all_errors') and not upper:
+        # no original design is compatible with the fixed values: the restricted problem is empty and every decode fails.
+        # How decoding fails for an empty design space is C01's subject, not C15's.
+        res['notes'].append(f'empty restricted problem ({sig["fixed"]}): decoding raises {obs_fixed["mismatch"][0][-90:]}')
+    elif obs_fixed.get('mismatch'):
+        _viol(res, 'fix', dict(kind='decode_error_or_create_flag', **sig), cfg, inputs, obs_fixed['mismatch'],
+              'every declared vector decodes, the same with and without materialising the instance')
     res['obligations'] += 4
     if len(got) != len(obs_fixed['rows']):
         _viol(res, 'fix', dict(kind='duplicate_rows', **sig), cfg, inputs, dict(rows=obs_fixed['rows']), 'each design once')
@@ -196,10 +255,14 @@ def check_restriction(res, name, fixed, obs_fixed, obs0, cfg, inputs):
 def check_same(res, name, what, obs, ref, cfg, inputs):
     res['obligations'] += 1
     diffs = [k for k in ('dvs', 'rows', 'acts', 'n_valid', 'decodes', 'full', 'stats') if obs[k] != ref[k]]
+    if obs.get('mismatch') != ref.get('mismatch'):
+        diffs.append('mismatch')
     if diffs:
         ex = {}
         for k in diffs[:2]:
-            if isinstance(obs[k], list):
+            if k == 'mismatch':
+                ex[k] = dict(got=obs.get(k), fresh=ref.get(k))
+            elif isinstance(obs[k], list):
                 idx = [i for i, (a, b) in enumerate(zip(obs[k], ref[k])) if a != b][:2]
                 ex[k] = dict(first_diffs=[dict(i=i, got=obs[k][i], fresh=ref[k][i]) for i in idx], len=[len(obs[k]), len(ref[k])])
             else:
@@ -223,12 +286,12 @@ def run_instance(inst, tier='quick', seed=0):
 def _symbolic_fix(res, name, ks):
     """symbolic stage: fix the variables ks (indices in all_des_vars) in order with symbolic values.
     Returns list of (path, outcome) where outcome = ('rejected', i, exc) | ('accepted', [values])"""
-    gp0, _, _ = dsg_pool.make_processor(name)
+    gp0, _, _ = _mk(name)
     kinds = [gp0.all_des_vars[k].is_discrete for k in ks]
     names = [f'v{i}' for i in range(len(ks))]
 
     def run():
-        gp, g, info = dsg_pool.make_processor(name)
+        gp, g, info = _mk(name)
         vals = [sym_int(nm) if disc else sym_real(nm) for nm, disc in zip(names, kinds)]
         out = []
         for i, k in enumerate(ks):
@@ -250,6 +313,80 @@ def _symbolic_fix(res, name, ks):
     ex = explore(run, max_paths=3000, time_cap_s=INSTANCE_CAP_S/2)
     absorb(res, ex)
     return ex, gp0, kinds, names
+
+
+def _refix_rejected(res, name, k, v1, discrete, dv0, cfg):
+    nm = 'w'
+
+    def run():
+        gp, g, info = _mk(name)
+        dv = gp.all_des_vars[k]
+        gp.fix_des_var(dv, v1)
+        names = [d.name for d in gp.des_vars]
+        w = sym_int(nm) if discrete else sym_real(nm)
+        try:
+            gp.fix_des_var(dv, w)
+        except (ValueError, RuntimeError):
+            fv = gp.fixed_value(dv) if gp.is_fixed(dv) else None
+            return 'rejected', gp.is_fixed(dv) and fv == v1 and [d.name for d in gp.des_vars] == names
+        return 'accepted', gp.is_fixed(dv)
+    ex = explore(run, max_paths=3000, time_cap_s=INSTANCE_CAP_S/4)
+    absorb(res, ex)
+    if not ex.complete:
+        res['status'] = INCONCLUSIVE
+        res['notes'].append(f're-fix after fix {v1}: {ex.status}')
+        return
+    require_exhaustive(res, ex)
+    w = z3.Int(nm) if discrete else z3.Real(nm)
+    ref_obs = None
+    for p in ex.paths:
+        res['obligations'] += 1
+        if p.kind == 'exc':
+            _viol(res, 'fix', dict(kind='unexpected_exception', template=name, k=k, refix=True), cfg, dict(first=v1, path=str(p.pc)), repr(p.exc), 'accept or ValueError/RuntimeError')
+            continue
+        status, ok = p.value
+        s = z3.Solver()
+        s.add(p.cond(), z3.Not(_range_claim(dv0, w, status == 'accepted')))
+        res['solver_queries'] += 1
+        sound = str(s.check()) == 'unsat'
+        s2 = z3.Solver()
+        s2.add(p.cond())
+        s2.check()
+        mv = s2.model().eval(w, model_completion=True)
+        mv = mv.as_long() if discrete else float(mv.as_fraction())
+        if not sound:
+            _viol(res, 'fix', dict(kind='accept_reject', template=name, k=k, refix=True), cfg, dict(first=v1, value=mv), status, 'rejected <=> out of range')
+            continue
+        res['discharged'] += 1
+        if status == 'accepted':
+            continue
+        # native continuation with the model value: everything observable equals "fixed to v1"
+        if ref_obs is None:
+            ref, _, _ = _mk(name)
+            ref.fix_des_var(ref.all_des_vars[k], v1)
+            ref_obs = observe(ref)
+        gp, _, _ = _mk(name)
+        dv = gp.all_des_vars[k]
+        gp.fix_des_var(dv, v1)
+        observe(gp)
+        try:
+            gp.fix_des_var(dv, mv)
+            nat = 'accepted'
+        except (ValueError, RuntimeError):
+            nat = 'rejected'
+        if nat != 'rejected':
+            res['status'] = HARNESS_ERROR
+            res['notes'].append(f're-fix {v1} -> {mv}: path rejected, native accepted')
+            continue
+        inputs = dict(first=v1, rejected_value=mv)
+        if not ok or not gp.is_fixed(dv):
+            _viol(res, 'fix', dict(kind='rejected_but_changed', template=name, k=k, refix=True), cfg, inputs,
+                  dict(is_fixed=gp.is_fixed(dv), des_vars=[d.name for d in gp.des_vars]), 'a rejected fix leaves the variable fixed to the earlier value')
+            continue
+        n_before = len(res['violations'])
+        check_same(res, name, 'fix v1,rejected fix', observe(gp), ref_obs, cfg, inputs)
+        gp.free_des_var(dv)
+        res['validated'] += 1
 
 
 def _range_claim(dv, v, accepted):
@@ -305,7 +442,7 @@ def _run_single(inst, res):
             mv = s2.model().eval(v, model_completion=True)
             mv = mv.as_long() if kinds[0] else float(mv.as_fraction())
             # native replay
-            gp, _, _ = dsg_pool.make_processor(name)
+            gp, _, _ = _mk(name)
             try:
                 gp.fix_des_var(gp.all_des_vars[k], mv)
                 nat = 'accepted'
@@ -333,7 +470,7 @@ def _run_single(inst, res):
     for val in accepted_vals:
         inputs = dict(value=val)
         # S1: fix -> restriction laws
-        gp, _, _ = dsg_pool.make_processor(name)
+        gp, _, _ = _mk(name)
         dv = gp.all_des_vars[k]
         gp.fix_des_var(dv, val)
         if not kinds[0]:
@@ -353,7 +490,7 @@ def _run_single(inst, res):
         gp.free_des_var(dv)
         check_same(res, name, 'fix,decode*,free', observe(gp, decode_rows=obs0['rows']), dict(obs0, decodes=obs0['decodes']), cfg, inputs)
         # S2b: fix; free (no decode in between); fix again; free
-        gp2, _, _ = dsg_pool.make_processor(name)
+        gp2, _, _ = _mk(name)
         dv2 = gp2.all_des_vars[k]
         gp2.fix_des_var(dv2, val)
         gp2.free_des_var(dv2)
@@ -368,10 +505,10 @@ def _run_single(inst, res):
         fresh_fix = {}
         for v1, v2 in itertools.permutations(accepted_vals, 2):
             if v2 not in fresh_fix:
-                ref, _, _ = dsg_pool.make_processor(name)
+                ref, _, _ = _mk(name)
                 ref.fix_des_var(ref.all_des_vars[k], v2)
                 fresh_fix[v2] = observe(ref)
-            gp3, _, _ = dsg_pool.make_processor(name)
+            gp3, _, _ = _mk(name)
             dv3 = gp3.all_des_vars[k]
             gp3.fix_des_var(dv3, v1)
             observe(gp3)
@@ -379,6 +516,11 @@ def _run_single(inst, res):
             check_same(res, name, 'fix v1,fix v2', observe(gp3), fresh_fix[v2], cfg, dict(values=[v1, v2]))
             gp3.free_des_var(dv3)
             check_same(res, name, 'fix v1,fix v2,free', observe(gp3, decode_rows=obs0['rows']), obs0, cfg, dict(values=[v1, v2]))
+    # S4: a *rejected* fix on an already fixed variable (symbolic second value) leaves the restricted problem as it was
+    if not is_conn:
+        firsts = accepted_vals if len(accepted_vals) <= 2 else [accepted_vals[0], accepted_vals[-1]]
+        for v1 in firsts:
+            _refix_rejected(res, name, k, v1, kinds[0], dv0, cfg)
     res['sample'] = dict(harness=inst['label'], variable=str(dv0), paths=[dict(pc=str(p.pc), outcome=str(p.value)[:120]) for p in ex.paths][:8],
                          accepted_values=accepted_vals, free_rows=len(obs0['rows']))
 
@@ -414,14 +556,14 @@ def _run_pair(inst, res):
     single_cache = {}
     for va, vb in pairs:
         inputs = dict(values=[va, vb])
-        gp, _, _ = dsg_pool.make_processor(name)
+        gp, _, _ = _mk(name)
         dva, dvb = gp.all_des_vars[a], gp.all_des_vars[b]
         gp.fix_des_var(dva, va)
         gp.fix_des_var(dvb, vb)
         obs_ab = observe(gp)
         check_restriction(res, name, {a: float(va), b: float(vb)}, obs_ab, obs0, cfg, inputs)
         for order in ((a, b), (b, a)):
-            gp, _, _ = dsg_pool.make_processor(name)
+            gp, _, _ = _mk(name)
             dv = {a: gp.all_des_vars[a], b: gp.all_des_vars[b]}
             val = {a: va, b: vb}
             gp.fix_des_var(dv[a], va)
@@ -432,7 +574,7 @@ def _run_pair(inst, res):
             # now only `second` is fixed: same as a fresh processor with only that fix
             key = (second, val[second])
             if key not in single_cache:
-                ref, _, _ = dsg_pool.make_processor(name)
+                ref, _, _ = _mk(name)
                 ref.fix_des_var(ref.all_des_vars[second], val[second])
                 single_cache[key] = observe(ref)
             check_same(res, name, f'fix a,fix b,free {"a" if first == a else "b"}', observe(gp), single_cache[key], cfg, dict(inputs, freed_first=first))
